@@ -59,6 +59,13 @@ def judge(case):
         return core.result("malformed", viol=[core.viol("C18/malformed_result/" + setup.kind, "returned model cannot be read: %r" % (e,))])
     bad = invariant(tr)
     v = []
+    if bad is None and tr["n"] >= 1:
+        # "when the requested step size would drive the model outside this region the call raises": the last reported
+        # step's own balance (reference stepper) must leave a positive feed mass, by a clear margin
+        m_next, x_next, t_next = traces.lookahead(setup, tr)
+        if m_next <= -1e-9 * abs(tr["m"][-1]):
+            v.append(core.viol("C18/exhausting_step_returned/" + setup.kind, "the last of the %d requested steps removes more than the remaining feed (%r kg left, balance gives %r kg) "
+                               "but the call returns instead of raising" % (tr["n"], tr["m"][-1], m_next), m=tr["m"], J=tr["J"][-1]))
     if bad is not None:
         v.append(core.viol("C18/inadmissible_state/" + setup.kind, "reported state %d has %s" % bad, step=bad[0],
                            m=tr["m"], x=tr["x"], T=tr["T"], area=case["area"]))
@@ -89,10 +96,10 @@ def coarse_spaces(tier, seed):
             return False
         return True
 
-    ideal = dict(base, kind=["ideal_iso", "ideal_noniso"], prog=["none", "poly", "poly_cross0"],
-                 P=[(1e-3, 2e-5), (3e-5, 4e-3), (1e-3, 8e-4)], tref_offset=[0.0, -12.0])  # incl. a weakly selective membrane:
+    ideal = dict(base, kind=["ideal_iso", "ideal_noniso"], prog=["none", "poly", "poly_cross0", "log_t0"], steps=[1, 2, 3, 6],
+                 P=[(1e-3, 2e-5), (3e-5, 4e-3), (1e-3, 8e-4), (1e-7, 2e-9)], tref_offset=[0.0, -12.0])  # incl. a weakly selective membrane:
     # both components over-drawn together keeps the mass fraction inside [0, 1], so the Composition validator is blind
-    non = dict(base, kind=["nonideal_iso", "nonideal_noniso"], prog=["none", "poly", "poly_cross0"],
+    non = dict(base, kind=["nonideal_iso", "nonideal_noniso"], prog=["none", "poly", "poly_cross0", "log_t0"], steps=[1, 2, 3, 6],
                curves=[spaces.CURVE_CONFIGS["one"], spaces.CURVE_CONFIGS["two"]],
                init_perm=[None, {"values": (2.5e-2, 3.0e-5)}, {"values": (2.0e-2, 1.5e-2)}])
     return [core.Space("coarse_ideal", ideal, ok), core.Space("coarse_nonideal", non, ok)]
